@@ -5,7 +5,7 @@
    A Go panic is the explicit outcome [Panic] / [SPanic] of the model (M_Crash.v).
    Scope: the decision cores named in the property's mechanisms; report generation, templates,
    symbolization and the Go runtime are covered by exploration only (level: partial). *)
-From PV Require Import M_Crash S_Crash L_Crash L_Crash_Tables M_Measure Gen.Gen_UnitTable Gen.Gen_C09Tables.
+From PV Require Import M_Crash S_Crash L_Crash L_Crash_Tables M_Measure Gen.Gen_UnitTable Gen.Gen_C09Tables Gen.Gen_C09CallTree.
 Open Scope string_scope.
 Open Scope Z_scope.
 
@@ -151,7 +151,41 @@ Theorem unknown_demangler_mode_panics : forall m, known_demangle m = false -> is
 Proof. exact demangler_unknown_panics. Qed.
 Print Assumptions unknown_demangler_mode_panics.
 
+(* -- graph.TrimTree's precondition (graph.go:469 "TrimTree only works on trees"; report.go newTrimmedGraph / newGraph) --
+   the two places that decide whether call_tree is honoured for an output format are read from the source on
+   every run: each g.TrimTree call is guarded by formats for which the graph was built as a call tree *)
+Theorem trim_tree_sites_guarded_by_tree_formats :
+  calltree_scan_ok && forallb (fun site => incl_b (snd site) build_tree_formats) trim_tree_sites = true.
+Proof. exact trim_tree_sites_fact. Qed.
+Print Assumptions trim_tree_sites_guarded_by_tree_formats.
+
+(* for ANY two format sets related like that, no option value, format, trimming result or profile shape makes a
+   TrimTree site panic ... *)
+Theorem trim_tree_never_panics : forall buildf sitef, incl_b sitef buildf = true ->
+  forall call_tree fmt dropped two_callers,
+  is_panic (trim_site_outcome buildf sitef call_tree fmt dropped two_callers) = false.
+Proof. exact trim_site_no_panic. Qed.
+Print Assumptions trim_tree_never_panics.
+
+(* ... in particular the sites the code has now *)
+Theorem trim_tree_sites_never_panic : forall site, In site trim_tree_sites ->
+  forall call_tree fmt dropped two_callers,
+  is_panic (trim_site_outcome build_tree_formats (snd site) call_tree fmt dropped two_callers) = false.
+Proof. exact trim_tree_sites_no_panic. Qed.
+Print Assumptions trim_tree_sites_never_panic.
+
+(* the relation is necessary: a format honoured by the trimming guard alone panics as soon as trimming drops a
+   node of a profile in which some function has two callers *)
+Theorem trim_tree_panics_outside_tree_formats : forall buildf sitef fmt,
+  in_formats fmt sitef = true -> in_formats fmt buildf = false ->
+  is_panic (trim_site_outcome buildf sitef true fmt true true) = true.
+Proof. exact trim_site_panics_outside. Qed.
+Print Assumptions trim_tree_panics_outside_tree_formats.
+
 (* -- non-vacuity and the necessity of the hypotheses -- *)
+Example trim_tree_sites_exist : trim_tree_sites <> [] /\ build_tree_formats <> [].
+Proof. split; discriminate. Qed.
+
 Example symbolize_mode_examples :
   symbolize_mode "demangle=gnu" = Ok (1, "default") /\
   symbolize_mode "local:demangle=simple" = Ok (1, "default") /\
